@@ -298,3 +298,264 @@ pub proof fn lemma_push_timeline(w: World, t: CheckpointType, op: CheckpointOp, 
         }
     }
 }
+
+// ---- effect of one elementary step on the votes view ----
+/// `w2` differs from `w`, as far as the votes view is concerned, exactly by: the units of account
+/// `ua` grew by `du`, the current value of timeline `tt` grew by `dt`; every timeline stays
+/// well-formed and every answer about a past ledger is unchanged
+pub open spec fn step_eff(w: World, w2: World, ua: Option<Address>, du: int, tt: Option<CheckpointType>, dt: int) -> bool {
+    &&& w2.ledger_seq == w.ledger_seq
+    &&& forall|a: Address| #[trigger] v_delegatee(w2, a) == v_delegatee(w, a)
+    &&& forall|a: Address| #[trigger] v_units(w2, a) as int == v_units(w, a) + (if ua == Some(a) { du } else { 0 })
+    &&& gap_total(w2) == gap_total(w) - (if ua.is_some() { du } else { 0 }) + (if tt == Some(t_total()) { dt } else { 0 })
+    &&& forall|d: Address| #[trigger] gap_deleg(w2, d) == gap_deleg(w, d)
+            - (if ua.is_some() && v_delegatee(w, ua.unwrap()) == Some(d) { du } else { 0 })
+            + (if tt == Some(t_acct(d)) { dt } else { 0 })
+    &&& forall|t: CheckpointType| seq_ok(w, t) ==> #[trigger] seq_ok(w2, t)
+    &&& forall|t: CheckpointType, q: u32| q < w.ledger_seq ==> #[trigger] past_value(w2, t, q) == past_value(w, t, q)
+}
+
+/// a write that touches no votes key family and not the ledger (authorization, events)
+pub proof fn lemma_eff_nostore(w: World, w2: World)
+    requires w2.persistent == w.persistent, w2.instance == w.instance, w2.ledger_seq == w.ledger_seq,
+    ensures step_eff(w, w2, None, 0, None, 0),
+{
+    assert forall|t: CheckpointType| true implies #[trigger] same_timeline(w, w2, t) by {}
+    assert forall|t: CheckpointType| seq_ok(w, t) implies #[trigger] seq_ok(w2, t) by { assert(same_timeline(w, w2, t)); lemma_timeline_frame(w, w2, t); }
+    assert forall|t: CheckpointType, q: u32| q < w.ledger_seq implies #[trigger] past_value(w2, t, q) == past_value(w, t, q) by {
+        assert(same_timeline(w, w2, t)); lemma_timeline_frame(w, w2, t);
+    }
+    assert forall|d: Address| #[trigger] gap_deleg(w2, d) == gap_deleg(w, d) by { assert(same_timeline(w, w2, t_acct(d))); lemma_timeline_frame(w, w2, t_acct(d)); }
+    assert(same_timeline(w, w2, t_total())); lemma_timeline_frame(w, w2, t_total());
+}
+
+pub proof fn lemma_eff_set_units(w: World, a: Address, u: u128)
+    ensures step_eff(w, set_units_post(w, a, u), Some(a), u - v_units(w, a), None, 0),
+{
+    broadcast use sdk_store;
+    let w2 = set_units_post(w, a, u);
+    let m = w.persistent;
+    assert forall|t: CheckpointType| true implies #[trigger] same_timeline(w, w2, t) by {
+        assert forall|i: u32| #[trigger] cp_at(w2, t, i) == cp_at(w, t, i) by {}
+    }
+    assert forall|t: CheckpointType| seq_ok(w, t) implies #[trigger] seq_ok(w2, t) by { assert(same_timeline(w, w2, t)); lemma_timeline_frame(w, w2, t); }
+    assert forall|t: CheckpointType, q: u32| q < w.ledger_seq implies #[trigger] past_value(w2, t, q) == past_value(w, t, q) by {
+        assert(same_timeline(w, w2, t)); lemma_timeline_frame(w, w2, t);
+    }
+    lemma_view_is_map(w, a);
+    if u == 0 {
+        assert(w2.persistent == m.remove(uk(a)));
+        lemma_m_remove_units(m, a, a);
+    } else {
+        assert(w2.persistent == m.insert(uk(a), u.sv()));
+        lemma_m_write_units(m, a, u.sv(), a);
+    }
+    assert forall|b: Address| #[trigger] v_units(w2, b) as int == v_units(w, b) + (if Some(a) == Some(b) { u - v_units(w, a) } else { 0 }) by {
+        lemma_view_is_map(w, b); lemma_view_is_map(w2, b);
+    }
+    assert forall|b: Address| #[trigger] v_delegatee(w2, b) == v_delegatee(w, b) by { lemma_view_is_map(w, b); lemma_view_is_map(w2, b); }
+    assert(same_timeline(w, w2, t_total())); lemma_timeline_frame(w, w2, t_total());
+    assert forall|d: Address| #[trigger] gap_deleg(w2, d) == gap_deleg(w, d)
+            - (if v_delegatee(w, a) == Some(d) { u - v_units(w, a) } else { 0 }) by {
+        assert(same_timeline(w, w2, t_acct(d))); lemma_timeline_frame(w, w2, t_acct(d));
+        if u == 0 { lemma_m_remove_units(m, a, d); } else { lemma_m_write_units(m, a, u.sv(), d); }
+    }
+}
+
+pub proof fn lemma_eff_push(w: World, t: CheckpointType, op: CheckpointOp, delta: u128)
+    requires push_guard(w, t, op, delta),
+    ensures step_eff(w, push_post(w, t, op, delta), None, 0, Some(t), cp_apply(cp_latest(w, t), op, delta) - cp_latest(w, t)),
+{
+    let w2 = push_post(w, t, op, delta);
+    let dt = cp_apply(cp_latest(w, t), op, delta) - cp_latest(w, t);
+    lemma_push_timeline(w, t, op, delta);
+    assert forall|t2: CheckpointType| seq_ok(w, t2) implies #[trigger] seq_ok(w2, t2) by {
+        if t2 != t { assert(same_timeline(w, w2, t2)); lemma_timeline_frame(w, w2, t2); }
+    }
+    assert forall|t2: CheckpointType, q: u32| q < w.ledger_seq implies #[trigger] past_value(w2, t2, q) == past_value(w, t2, q) by {
+        if t2 != t { assert(same_timeline(w, w2, t2)); lemma_timeline_frame(w, w2, t2); }
+    }
+    lemma_push_sums(w, t, op, delta);
+    assert forall|d: Address| #[trigger] gap_deleg(w2, d) == gap_deleg(w, d) + (if Some(t) == Some(t_acct(d)) { dt } else { 0 }) by {
+        if t != t_acct(d) { assert(same_timeline(w, w2, t_acct(d))); lemma_timeline_frame(w, w2, t_acct(d)); }
+    }
+    if t != t_total() { assert(same_timeline(w, w2, t_total())); lemma_timeline_frame(w, w2, t_total()); }
+}
+/// `push_checkpoint` writes only checkpoint / counter entries: units, delegations and both sums are untouched
+pub proof fn lemma_push_sums(w: World, t: CheckpointType, op: CheckpointOp, delta: u128)
+    ensures
+        sum_units(push_post(w, t, op, delta)) == sum_units(w),
+        forall|d: Address| #[trigger] sum_deleg(push_post(w, t, op, delta), d) == sum_deleg(w, d),
+        forall|a: Address| #[trigger] v_units(push_post(w, t, op, delta), a) == v_units(w, a),
+        forall|a: Address| #[trigger] v_delegatee(push_post(w, t, op, delta), a) == v_delegatee(w, a),
+{
+    let w2 = push_post(w, t, op, delta);
+    let n = cp_num(w, t);
+    let c = push_cp(w, t, op, delta);
+    let m = w.persistent;
+    let k1 = if push_same_ledger(w, t) { cp_key(t, (n - 1) as u32) } else { cp_key(t, n) };
+    lemma_other_key(k1);
+    let m1 = m.insert(k1.sv(), c.sv());
+    let d0 = Address { id: 0 };
+    lemma_m_write_other(m, k1.sv(), c.sv(), d0);
+    assert forall|d: Address| psum(m1, deleg_proj(m1, d)) == psum(m, deleg_proj(m, d)) by { lemma_m_write_other(m, k1.sv(), c.sv(), d); }
+    if !push_same_ledger(w, t) && (t is Account) {
+        let k2 = VotesStorageKey::NumCheckpoints(t->Account_0);
+        let v2 = ((n + 1) as u32).sv();
+        lemma_other_key(k2);
+        assert(w2.persistent == m1.insert(k2.sv(), v2));
+        lemma_m_write_other(m1, k2.sv(), v2, d0);
+        assert forall|d: Address| #[trigger] sum_deleg(w2, d) == sum_deleg(w, d) by { lemma_m_write_other(m1, k2.sv(), v2, d); }
+    } else {
+        assert(w2.persistent == m1);
+    }
+    assert forall|a: Address| #[trigger] v_units(w2, a) == v_units(w, a) by { lemma_view_is_map(w, a); lemma_view_is_map(w2, a); }
+    assert forall|a: Address| #[trigger] v_delegatee(w2, a) == v_delegatee(w, a) by { lemma_view_is_map(w, a); lemma_view_is_map(w2, a); }
+}
+
+/// two consecutive elementary steps: facts that simply chain
+pub open spec fn eff_frame(w: World, w2: World) -> bool {
+    &&& w2.ledger_seq == w.ledger_seq
+    &&& forall|a: Address| #[trigger] v_delegatee(w2, a) == v_delegatee(w, a)
+    &&& forall|t: CheckpointType| seq_ok(w, t) ==> #[trigger] seq_ok(w2, t)
+    &&& forall|t: CheckpointType, q: u32| q < w.ledger_seq ==> #[trigger] past_value(w2, t, q) == past_value(w, t, q)
+}
+pub proof fn lemma_eff_frame_trans(w: World, w1: World, w2: World)
+    requires eff_frame(w, w1), eff_frame(w1, w2),
+    ensures eff_frame(w, w2),
+{
+    assert forall|a: Address| #[trigger] v_delegatee(w2, a) == v_delegatee(w, a) by { assert(v_delegatee(w1, a) == v_delegatee(w, a)); }
+    assert forall|t: CheckpointType| seq_ok(w, t) implies #[trigger] seq_ok(w2, t) by { assert(seq_ok(w1, t)); }
+    assert forall|t: CheckpointType, q: u32| q < w.ledger_seq implies #[trigger] past_value(w2, t, q) == past_value(w, t, q) by {
+        assert(past_value(w1, t, q) == past_value(w, t, q));
+    }
+}
+
+/// one half of move_delegate_votes
+pub open spec fn opt_acct(d: Option<Address>) -> Option<CheckpointType> { match d { Some(a) => Some(t_acct(a)), None => None } }
+pub proof fn lemma_eff_move1(w: World, d: Option<Address>, op: CheckpointOp, amt: u128)
+    requires move1_guard(w, d, op, amt),
+    ensures step_eff(w, move1_post(w, d, op, amt), None, 0, opt_acct(d),
+        (match d { Some(a) => cp_apply(cp_latest(w, t_acct(a)), op, amt) - cp_latest(w, t_acct(a)), None => 0 })),
+{
+    match d {
+        Some(a) => {
+            let w1 = push_post(w, t_acct(a), op, amt);
+            let w2 = move1_post(w, d, op, amt);
+            lemma_eff_push(w, t_acct(a), op, amt);
+            lemma_eff_nostore(w1, w2);
+            let dt = cp_apply(cp_latest(w, t_acct(a)), op, amt) - cp_latest(w, t_acct(a));
+            assert(eff_frame(w, w1) && eff_frame(w1, w2));
+            lemma_eff_frame_trans(w, w1, w2);
+            assert forall|b: Address| #[trigger] v_units(w2, b) as int == v_units(w, b) by { assert(v_units(w1, b) == v_units(w, b)); }
+            assert forall|x: Address| #[trigger] gap_deleg(w2, x) == gap_deleg(w, x) + (if Some(t_acct(a)) == Some(t_acct(x)) { dt } else { 0 }) by {
+                assert(gap_deleg(w2, x) == gap_deleg(w1, x));
+            }
+        }
+        None => { lemma_eff_nostore(w, w); }
+    }
+}
+
+/// `move_delegate_votes` (C13: "votes moved between the two delegates"): the old delegate's current
+/// value drops by `amt`, the new one's grows by `amt`, nothing else in the votes view changes
+pub open spec fn move_eff(w: World, w2: World, fd: Option<Address>, td: Option<Address>, amt: u128) -> bool {
+    &&& eff_frame(w, w2)
+    &&& forall|a: Address| #[trigger] v_units(w2, a) == v_units(w, a)
+    &&& gap_total(w2) == gap_total(w)
+    &&& forall|d: Address| #[trigger] gap_deleg(w2, d) == gap_deleg(w, d)
+            + (if fd != td && td == Some(d) { amt as int } else { 0 }) - (if fd != td && fd == Some(d) { amt as int } else { 0 })
+}
+pub proof fn lemma_move(w: World, fd: Option<Address>, td: Option<Address>, amt: u128)
+    requires move_guard(w, fd, td, amt),
+    ensures
+        //@@ C13:lemma.move_delegate_votes
+        move_eff(w, move_post(w, fd, td, amt), fd, td, amt),
+{
+    let w2 = move_post(w, fd, td, amt);
+    if amt == 0 || fd == td {
+        lemma_eff_nostore(w, w);
+    } else {
+        let w1 = move1_post(w, fd, CheckpointOp::Sub, amt);
+        lemma_eff_move1(w, fd, CheckpointOp::Sub, amt);
+        lemma_eff_move1(w1, td, CheckpointOp::Add, amt);
+        assert(eff_frame(w, w1) && eff_frame(w1, w2));
+        lemma_eff_frame_trans(w, w1, w2);
+        assert forall|a: Address| #[trigger] v_units(w2, a) == v_units(w, a) by { assert(v_units(w1, a) == v_units(w, a)); }
+        assert forall|d: Address| #[trigger] gap_deleg(w2, d) == gap_deleg(w, d)
+            + (if td == Some(d) { amt as int } else { 0 }) - (if fd == Some(d) { amt as int } else { 0 }) by {
+            assert(gap_deleg(w1, d) == gap_deleg(w, d) - (if fd == Some(d) { amt as int } else { 0 }));
+            // the second push reads the timeline of td in w1; td != fd, so it is the one of w
+            if td == Some(d) {
+                assert(gap_deleg(w2, d) == gap_deleg(w1, d) + (cp_apply(cp_latest(w1, t_acct(d)), CheckpointOp::Add, amt) - cp_latest(w1, t_acct(d))));
+            } else {
+                assert(gap_deleg(w2, d) == gap_deleg(w1, d));
+            }
+        }
+    }
+}
+
+/// `transfer_voting_units` preserves inv_v; units move exactly as requested (C13)
+pub open spec fn xfer_units_delta(from_a: Option<Address>, to_a: Option<Address>, amt: u128, a: Address) -> int {
+    (if to_a == Some(a) { amt as int } else { 0 }) - (if from_a == Some(a) { amt as int } else { 0 })
+}
+pub proof fn lemma_xfer_inv(w: World, from_a: Option<Address>, to_a: Option<Address>, amt: u128)
+    requires inv_v(w), xfer_guard(w, from_a, to_a, amt),
+    ensures
+        //@@ C13:lemma.transfer_units_inv
+        inv_v(xfer_post(w, from_a, to_a, amt)),
+        //@@ C13:lemma.transfer_units_exact_units
+        forall|a: Address| #[trigger] v_units(xfer_post(w, from_a, to_a, amt), a) as int == v_units(w, a) + xfer_units_delta(from_a, to_a, amt, a),
+        //@@ C13:lemma.transfer_units_keeps_delegations
+        forall|a: Address| #[trigger] v_delegatee(xfer_post(w, from_a, to_a, amt), a) == v_delegatee(w, a),
+        //@@ C13:lemma.transfer_units_keeps_past
+        forall|t: CheckpointType, q: u32| q < w.ledger_seq ==> #[trigger] past_value(xfer_post(w, from_a, to_a, amt), t, q) == past_value(w, t, q),
+        xfer_post(w, from_a, to_a, amt).ledger_seq == w.ledger_seq,
+{
+    let w4 = xfer_post(w, from_a, to_a, amt);
+    if amt == 0 {
+        lemma_eff_nostore(w, w);
+    } else {
+        let fd = v_delegatee_opt(w, from_a);
+        let td = v_delegatee_opt(w, to_a);
+        let w1 = xfer_from_post(w, from_a, amt);
+        let w2 = xfer_to_post(w1, to_a, amt);
+        // step 1: debit / mint — either way Σ units falls behind the total by `amt`, and the from-delegate's sum by `amt`
+        match from_a {
+            Some(f) => { lemma_eff_set_units(w, f, (v_units(w, f) - amt) as u128); }
+            None => { lemma_eff_push(w, t_total(), CheckpointOp::Add, amt); }
+        }
+        assert(eff_frame(w, w1));
+        assert(gap_total(w1) == gap_total(w) + amt);
+        assert forall|d: Address| #[trigger] gap_deleg(w1, d) == gap_deleg(w, d) + (if fd == Some(d) { amt as int } else { 0 }) by {}
+        assert forall|a: Address| #[trigger] v_units(w1, a) as int == v_units(w, a) - (if from_a == Some(a) { amt as int } else { 0 }) by {}
+        // step 2: credit / burn
+        match to_a {
+            Some(t) => { lemma_eff_set_units(w1, t, (v_units(w1, t) + amt) as u128); assert(v_delegatee(w1, t) == v_delegatee(w, t)); }
+            None => { lemma_eff_push(w1, t_total(), CheckpointOp::Sub, amt); }
+        }
+        assert(eff_frame(w1, w2));
+        lemma_eff_frame_trans(w, w1, w2);
+        assert(gap_total(w2) == gap_total(w));
+        assert forall|d: Address| #[trigger] gap_deleg(w2, d) == gap_deleg(w, d)
+            + (if fd == Some(d) { amt as int } else { 0 }) - (if td == Some(d) { amt as int } else { 0 }) by {
+            assert(gap_deleg(w1, d) == gap_deleg(w, d) + (if fd == Some(d) { amt as int } else { 0 }));
+        }
+        assert forall|a: Address| #[trigger] v_units(w2, a) as int == v_units(w, a) + xfer_units_delta(from_a, to_a, amt, a) by {
+            assert(v_units(w1, a) as int == v_units(w, a) - (if from_a == Some(a) { amt as int } else { 0 }));
+        }
+        // step 3: the delegates' timelines catch up
+        lemma_move(w2, fd, td, amt);
+        assert(eff_frame(w2, w4));
+        lemma_eff_frame_trans(w, w2, w4);
+        assert forall|a: Address| #[trigger] v_units(w4, a) as int == v_units(w, a) + xfer_units_delta(from_a, to_a, amt, a) by {
+            assert(v_units(w4, a) == v_units(w2, a));
+        }
+        assert forall|d: Address| #[trigger] cp_latest(w4, t_acct(d)) as int == sum_deleg(w4, d) by {
+            assert(gap_deleg(w4, d) == gap_deleg(w2, d)
+                + (if fd != td && td == Some(d) { amt as int } else { 0 }) - (if fd != td && fd == Some(d) { amt as int } else { 0 }));
+            assert(gap_deleg(w, d) == 0);
+        }
+        assert(gap_total(w4) == 0);
+        assert forall|t: CheckpointType| #[trigger] seq_ok(w4, t) by { assert(seq_ok(w, t)); }
+    }
+}
